@@ -17,6 +17,8 @@ pub enum Op { OpenFd(u64), OpenLock(u64), GiveUp(u64), Open(u64), Create(u64), P
     BigPut(u64, u64, usize),
     /// not model ops (oracle-only histories): Memvid::downgrade_to_shared; a put on the downgraded handle (ensure_writable upgrades)
     Downgrade(u64),
+    /// not model ops: a child process opens read-only (shared lock) and keeps it until released
+    ReaderHold, ReaderRelease,
     /// not a model op: from four child processes at once try Memvid::open, open_read_only, doctor and a non-blocking flock
     Probe,
     /// not a model op: repeat the next would-be open from a child process and compare (cross-process check)
@@ -34,7 +36,7 @@ impl Op {
             Op::Commit(w) => T::C("Commit", vec![n(w)]), Op::Vacuum(w) => T::C("Vacuum", vec![n(w)]), Op::Drop(w) => T::C("Drop", vec![n(w)]),
             Op::Kill(w) => T::C("Kill", vec![n(w)]), Op::Doctor(w) => T::C("Doctor", vec![n(w)]),
             Op::Touch(w, _) => T::C("Touch", vec![n(w)]), Op::EnableVec(w) => T::C("EnableVec", vec![n(w)]), Op::BigPut(w, t, _) => T::C("Put", vec![n(w), n(t)]),
-            Op::ChildOpen | Op::Probe | Op::Downgrade(_) => return None,
+            Op::ChildOpen | Op::Probe | Op::Downgrade(_) | Op::ReaderHold | Op::ReaderRelease => return None,
         })
     }
 }
@@ -85,6 +87,11 @@ pub fn child(args: &[String]) {
     match mode {
         "ro" => match Memvid::open_read_only(&p) { Ok(m) => { println!("C17CHILD OK {:?}", tags(&m)); memvid_core::verif_hooks::drop_without_commit(m); } Err(e) => println!("C17CHILD ERR {}", e) },
         "doctor" => { let (got, _, what) = doctor(&p); println!("C17CHILD {} {}", if got { "OK" } else { "ERR" }, what); }
+        "ro-hold" => match Memvid::open_read_only(&p) {
+            Ok(m) => { println!("C17CHILD OK holding"); use std::io::Write; let _ = std::io::stdout().flush();
+                let rel = PathBuf::from(&args[2]); for _ in 0..2400 { if rel.exists() { break; } std::thread::sleep(std::time::Duration::from_millis(50)); }
+                memvid_core::verif_hooks::drop_without_commit(m); }
+            Err(e) => println!("C17CHILD ERR {}", e) },
         "try" => { let f = std::fs::OpenOptions::new().read(true).write(true).open(&p).expect("open"); match FileLock::try_acquire(&f, &p) { Ok(Some(_)) => println!("C17CHILD OK try"), _ => println!("C17CHILD ERR try") } }
         _ => match Memvid::open(&p) { Ok(m) => { println!("C17CHILD OK {:?}", tags(&m)); memvid_core::verif_hooks::drop_without_commit(m); } Err(e) => println!("C17CHILD ERR {}", e) },
     }
@@ -156,7 +163,7 @@ pub fn run_history(name: &str, ops: &[Op]) -> Outcome {
     let mut acked: Vec<u64> = vec![];                 // tags whose commit was acknowledged
     let mut put_by: Vec<Vec<u64>> = vec![vec![]; 8];  // tags put (Ok) by each handle and not yet committed
     let mut stale_seen = false; let mut create_truncated = false; let mut two_writers = false; let mut refused = 0usize;
-    let mut child_next = false; let mut dead = false; let mut env_error = false; let mut waiter_ino = [0u64; 8]; let mut waiter_start = [std::time::Instant::now(); 8]; let mut last_release = std::time::Instant::now(); let mut ticket_seq = 10i64;
+    let mut child_next = false; let mut dead = false; let mut env_error = false; let mut waiter_ino = [0u64; 8]; let mut waiter_start = [std::time::Instant::now(); 8]; let mut last_release = std::time::Instant::now(); let mut ticket_seq = 10i64; let mut reader: Option<std::process::Child> = None;
     let set_viol = |v: &mut Option<String>, s: String| { if v.is_none() { *v = Some(s); } };
     for op in ops {
         if dead { break; }
@@ -203,7 +210,13 @@ pub fn run_history(name: &str, ops: &[Op]) -> Outcome {
                     if !e.contains("exclusive access unavailable") || timed_out { env_error = true; tagv.push(format!("open-error:{}{}", if timed_out { "waiter timed out before the release: " } else { "" }, e)); } } _ => { ok = false; env_error = true; } } } else { ok = false; }
             }
             Op::GiveUp(w) => { if let Some(h) = waiting[*w as usize].take() { if let Ok(Ok(m)) = h.join() { hs[*w as usize] = Some(m); ok = false; } else { refused += 1; } } }
-            Op::Put(w, t) => match hs[*w as usize].as_mut() { Some(m) => match put(m, *t) { Ok(_) => put_by[*w as usize].push(*t), Err(e) => { ok = false; if e.contains("Tantivy") { env_error = true; } tagv.push(format!("put-error:{}", e)); } }, None => ok = false },
+            Op::Put(w, t) => match hs[*w as usize].as_mut() { Some(m) => { let was_ro = m.is_read_only();
+                    match put(m, *t) { Ok(_) => { put_by[*w as usize].push(*t); if was_ro { tagv.push("upgrade-granted".into()); } }
+                        Err(e) => { ok = false; if e.contains("Tantivy") { env_error = true; } tagv.push(format!("put-error:{}", e));
+                            // ensure_writable: a FAILED upgrade (the shared lock was given up, the exclusive one not obtained) must leave the handle read-only
+                            if was_ro && e.contains("exclusive access unavailable") { tagv.push("upgrade-refused".into());
+                                if !m.is_read_only() { set_viol(&mut viol, format!("writable-without-lock: put on downgraded handle {} failed to upgrade its lock ({}), the handle now holds no lock and reports is_read_only() == false: its next put / commit will write unlocked (history {:?})", w, e, done)); } } } } }
+                None => ok = false },
             Op::Commit(w) | Op::Vacuum(w) => match hs[*w as usize].as_mut() {
                 Some(m) => { let r = if matches!(op, Op::Commit(_)) { m.commit() } else { m.vacuum() };
                     match r { Ok(()) => { acked.extend(put_by[*w as usize].drain(..)); } Err(e) => { ok = false; if e.to_string().contains("Tantivy") { env_error = true; } tagv.push(format!("commit-error:{}", e)); } } }
@@ -257,6 +270,18 @@ pub fn run_history(name: &str, ops: &[Op]) -> Outcome {
                 }
                 continue;
             }
+            Op::ReaderHold => {
+                let rel = dir.path().join("C17-release-reader"); let _ = std::fs::remove_file(&rel);
+                let exe = std::env::current_exe().expect("exe");
+                match std::process::Command::new(exe).arg("C17-child").arg(&p).arg("ro-hold").arg(&rel).env("RUST_BACKTRACE", "0").stdout(std::process::Stdio::piped()).stderr(std::process::Stdio::null()).spawn() {
+                    Ok(mut ch) => { use std::io::BufRead; let mut got = false;
+                        if let Some(out) = ch.stdout.take() { let mut rd = std::io::BufReader::new(out); let mut line = String::new();
+                            while rd.read_line(&mut line).unwrap_or(0) > 0 { if line.contains("C17CHILD OK") { got = true; break; } if line.contains("C17CHILD ERR") { break; } line.clear(); } }
+                        tagv.push(format!("reader-holds:{}", got)); if !got { env_error = true; } reader = Some(ch); }
+                    Err(_) => { env_error = true; } }
+                continue;
+            }
+            Op::ReaderRelease => { let _ = std::fs::write(dir.path().join("C17-release-reader"), b"x"); if let Some(mut ch) = reader.take() { let _ = ch.wait(); } continue; }
             Op::ChildOpen => {}
         }
         let ino_after = ino_path(&p);
@@ -264,7 +289,8 @@ pub fn run_history(name: &str, ops: &[Op]) -> Outcome {
         let live: Vec<(u64, bool)> = (0..8u64).filter_map(|w| hs[w as usize].as_ref().map(|m| (w, ino_lock(m) != ino_after))).collect();
         if live.iter().any(|(_, s)| *s) { stale_seen = true; }
         // THE PROPERTY: at most one live writable handle
-        if live.len() >= 2 {
+        let writable = (0..8).filter(|w| hs[*w].as_ref().map(|m| !m.is_read_only()).unwrap_or(false)).count();
+        if writable >= 2 {
             two_writers = true;
             let stale = live.iter().any(|(_, s)| *s);
             set_viol(&mut viol, format!("{}: {} writable handles on one path are alive after step {} of {:?} (lock inode <> path inode per handle: {:?})",
@@ -276,6 +302,7 @@ pub fn run_history(name: &str, ops: &[Op]) -> Outcome {
     }
     // end: tables of the live handles, then close everything without committing and reopen
     let tocs: Vec<(u64, Vec<u64>)> = (0..8u64).filter_map(|w| hs[w as usize].as_ref().map(|m| (w, tags(m)))).collect();
+    let _ = std::fs::write(dir.path().join("C17-release-reader"), b"x"); if let Some(mut ch) = reader.take() { let _ = ch.wait(); }
     for w in 0..8 { if let Some(h) = waiting[w].take() { if let Ok(Ok(m)) = h.join() { memvid_core::verif_hooks::drop_without_commit(m); } } }
     for w in 0..8 { if let Some(m) = hs[w].take() { memvid_core::verif_hooks::drop_without_commit(m); } }
     let fin = match Memvid::open(&p) { Ok(m) => { let t = tags(&m); memvid_core::verif_hooks::drop_without_commit(m); t } Err(e) => { tagv.push(format!("final-open-error:{}", e)); vec![] } };
@@ -320,6 +347,8 @@ fn scripted() -> Vec<(&'static str, Vec<Op>)> {
         ("ticket", vec![Create(0), Touch(0, TouchKind::Ticket), Put(0, 1), Probe, Kill(0), Open(1)]),
         ("reopen-presize", vec![Create(0), Put(0, 1), Commit(0), Drop(0), Open(0), Touch(0, TouchKind::Presize(262_144)), Probe, Put(0, 2), Touch(0, TouchKind::BeginBatch), BigPut(0, 3, 300_000), Touch(0, TouchKind::EndBatch), Probe]),
         ("oracle-downgrade", vec![Create(0), Put(0, 1), Commit(0), Drop(0), Open(0), Downgrade(0), Probe, Put(0, 2), Probe]),
+        // a reader in another process keeps the shared lock while the downgraded writer A tries to upgrade (refused after 10 s); B opens; A writes again (must be refused)
+        ("oracle-failed-upgrade", vec![Create(0), Put(0, 1), Commit(0), Drop(0), Open(0), Downgrade(0), ReaderHold, Put(0, 2), ReaderRelease, Open(1), Put(0, 3), Put(1, 4), Commit(1)]),
         ("replay-on-open", vec![Create(0), Put(0, 1), Kill(0), Open(1), ChildOpen, Open(2), Put(1, 2), Commit(1), Put(2, 3), Commit(2)]),
     ]
 }
@@ -379,7 +408,7 @@ pub fn run(seed: u64, n: usize, w: &mut dyn std::io::Write) {
     if let Ok(only) = std::env::var("MV_C17_ONLY") { jobs.retain(|j| j.0 == only); }
     // corpus seed: the histories that caught a seeded lock release (log pre-sizing / growth before the first commit) run first and alone
     let corpus = seed == 17001;
-    if corpus { jobs.retain(|j| j.0 == "presize" || j.0 == "batch-growth"); }
+    if corpus { jobs.retain(|j| j.0 == "presize" || j.0 == "batch-growth" || j.0 == "oracle-failed-upgrade"); }
     if !corpus { for i in 0..n.saturating_sub(jobs.len()) { jobs.push((format!("random{}", i), random_history(&mut r))); } }
     // all histories in parallel (a refused open sleeps 10 s), 12 at a time (more concurrent Tantivy writers than that fail to start in this sandbox)
     let mut outs: Vec<Outcome> = vec![];
